@@ -269,10 +269,10 @@ def showWrites (ws : List (Write String)) : Json :=
 def showVal (v : Val Nat) (calls : Nat) : Json :=
   Json.arr #[Json.num v.variant, Json.arr (v.fields.toArray.map fun (n : Nat) => Json.num n), Json.num calls]
 
-/-- Number of instrumented (`K`-typed) fields of variant `k`: each is cloned by exactly one call. -/
+/-- Number of instrumented (`K`- / `KC`-typed) fields of variant `k`: each is cloned by exactly one call. -/
 def DefJ.countK (d : DefJ) (k : Nat) : Nat :=
   match d.variants[k]? with
-  | some v => (v.fields.toList.filter fun f => f.ty == "K").length
+  | some v => (v.fields.toList.filter fun f => f.ty == "K" || f.ty == "KC").length
   | none => 0
 
 def showO3 : Ord3 → String
